@@ -138,7 +138,7 @@ def run(rep: Report, repo: Repo):
         'enqueue, yield-once shape; one state-element predicate at all sites; level formula; fan-in marking; regex AST of the '
         'prefix lookup and numeric index conversion.')
     rep.trusted = ['python ast, re._parser']
-    rep.assumptions = ['NOT DECIDED: completeness/ordering for every graph is Kahn\'s correctness argument; the rules here are its visible preconditions',
+    rep.assumptions = ['BOUNDED: completeness/ordering is decided by evaluation on every digraph on <= 3 nodes and the forward-edged graphs on 4 nodes (C17.traverse); larger graphs rest on the absence of size thresholds in the code (adequacy condition) and on Kahn\'s argument',
                        'NOT DECIDED: prefix collisions and mixed-dimension names in _locs']
     mod = repo.mod('circuit')
     fns = {q: mod.func(q) for q in TRAVERSALS}
